@@ -123,9 +123,9 @@ pub fn run(ctx: &Ctx) -> (Stats, Report) {
     // E1: pools x scalar pool (+ edge-seeking factors per interval)
     for which in [0u8, 1, 2] {
         let xs: Vec<i128> = match which {
-            0 => pools::ym_pool(seed, if ctx.thorough { 400 } else { 100 }),
-            1 => pools::dt_pool(seed, if ctx.thorough { 400 } else { 100 }),
-            _ => pools::time_pool(seed, if ctx.thorough { 300 } else { 60 }),
+            0 => pools::ym_pool(seed, if ctx.thorough { 1200 } else { 250 }),
+            1 => pools::dt_pool(seed, if ctx.thorough { 1200 } else { 250 }),
+            _ => pools::time_pool(seed, if ctx.thorough { 900 } else { 150 }),
         };
         let base = pools::f64_scalars();
         let lim = if which == 0 { YM_MAX } else { DT_MAX };
@@ -169,7 +169,7 @@ pub fn run(ctx: &Ctx) -> (Stats, Report) {
         let s = pt_run(
             &format!("C14/{}", NAMES[which as usize]),
             seed,
-            (if ctx.thorough { 6_000_000 } else { 600_000 }) / THREADS as u32,
+            (if ctx.thorough { 48_000_000 } else { 2_400_000 }) / THREADS as u32,
             THREADS,
             || (strat::raw(kind), strat::any_f64(), any::<bool>()),
             |(x, f, div): &(i128, f64, bool), st: &mut Stats| {
